@@ -212,6 +212,18 @@ theorem strict_min_duration_counterexample :
     timeline (run (SeqState.init (devOf chC) 1) (twoPulses 24))
       ≠ timeline (run (SeqState.init (devOf chD) 1) (twoPulses 24)) := by decide +kernel
 
+/-- (start, end) of every instruction, per declared channel. -/
+def slotTimes (s : SeqState) : List (List (Int × Int)) := s.chans.map fun c => c.slots.map fun sl => (sl.ti, sl.tf)
+
+/-- The numbers of the two F5 reproducers — the same as the implementation's
+(corpus/C18/f5_*.json carry them as `expect` and the check compares them with the real run). -/
+theorem f5_values :
+    slotTimes (run (SeqState.init (devOf chA) 1) (twoPulses 240)) = [[(-1, 0), (0, 100), (100, 580), (580, 680)]] ∧
+    slotTimes (run (SeqState.init (devOf chB) 1) (twoPulses 240)) = [[(-1, 0), (0, 100), (100, 340), (340, 440)]] ∧
+    slotTimes (run (SeqState.init (devOf chC) 1) (twoPulses 24)) = [[(-1, 0), (0, 100), (100, 148), (148, 248)]] ∧
+    slotTimes (run (SeqState.init (devOf chD) 1) (twoPulses 24)) = [[(-1, 0), (0, 100), (100, 152), (152, 252)]] := by
+  decide +kernel
+
 /-! ### (c) the replay: DMM channels are renamed, the calls naming them are not -/
 
 def dmmCfg : ChanCfg := { isDmm := true, clock := 4, minDur := 16 }
@@ -237,6 +249,13 @@ theorem dmm_rename_counterexample :
     (dmmSeq.chans.map fun c => (c.name, c.slots.length)) = [(.dmm 1 0, 1), (.dmm 0 0, 2)] ∧
     slotCounts (switchDevice (fun _ _ => true) dmmSeq (twoDmm (some 100000)) true)
       = some [(.dmm 0 0, 2), (.dmm 1 0, 1)] := by decide +kernel
+
+/-- The times of that reproducer (corpus/C18/f18r_dmm_renamed.json, `expect`). -/
+theorem dmm_rename_values :
+    slotTimes dmmSeq = [[(-1, 0)], [(-1, 0), (0, 100)]] ∧
+    (match switchDevice (fun _ _ => true) dmmSeq (twoDmm (some 100000)) true with
+     | .ok s' => some (slotTimes s')
+     | .error _ => none) = some [[(-1, 0), (0, 100)], [(-1, 0)]] := by decide +kernel
 
 /-! ### switching the register -/
 
